@@ -22,10 +22,11 @@ def canonMask (q : Obj) : Mask :=
     apart).  Class, shape, numerator, denominator, units, read-only flag and default are
     copied; the mask has the same expansion; a single value is kept; in an array every
     unmasked item is kept bit for bit and every masked item is the default; the arrays are
-    writable exactly when the object is not read-only. -/
+    writable exactly when the object is not read-only; a single value is kept if unmasked and is the
+    default if masked. -/
 def expect (q : Obj) : Obj :=
   match q.vals with
-  | .single x => { baseOf q q.mask with vals := .single x }
+  | .single x => { baseOf q q.mask with vals := .single (if q.mask.all then q.default.getD 0 0 else x) }
   | .array _ items =>
     { baseOf q (canonMask q) with
         dtype := if q.mask.all then DType.ofKind q.dtype.kind else q.dtype,
@@ -95,7 +96,7 @@ theorem setstate1_getstate1 (P : Params) (q : Obj) (hq : WFObj q)
     obtain ⟨h1, h2⟩ := rt_single P q x b hv hm
     have ha : q.antimask = none := by simp [Obj.antimask, hv]
     refine ⟨by rw [h1, ha], ?_⟩
-    rw [h2, ha]; simp [expect, hv, hm]
+    rw [h2, ha]; simp [expect, hv, hm, Mask.all]
   | array vs items =>
     obtain ⟨hvs, hil, hok⟩ := hq.array vs items hv
     have hml := maskBits_length q hq
